@@ -189,6 +189,13 @@ fn process_modify_event(
                             file_kind,
                         )
                     })
+                    // Renamed to somewhere we do not care about: the source path is gone.
+                    .or_else(|| {
+                        categorize_changed_file_and_filter_changes_in_artifact_directory(
+                            config, &paths[0],
+                        )
+                        .map(|file_kind| (SourceEventKind::Remove(paths[0].clone()), file_kind))
+                    })
                 }
                 _ => None,
             }
